@@ -159,3 +159,70 @@ def _fix_sched(scn):
 def replay(witness):
     bad = check_scn(witness["scenario"])
     return {"fails": bad is not None, "detail": bad}
+
+
+# ---------------------------------------------------------------- every timeframe of a Hexital (C03 inside the façade)
+
+
+def check_hexital_tfs(scn):
+    """a Hexital whose members name several (nesting or NOT nesting) timeframes, history at construction and/or appends:
+    every manager it holds must carry exactly the independent resampling of the raw stream consumed so far"""
+    from hexital.core.hexital import Hexital
+    from hexital.indicators import EMA
+
+    stream = scn["stream"]
+    init = scn.get("init", len(stream))
+    try:
+        hx = Hexital("tfs", cm.mk_candles(stream[:init]), [EMA(period=2, timeframe=tf) for tf in scn["tfs"]])
+        hx.calculate()
+        consumed = init
+        steps = [init] + list(scn.get("chunks", []))
+        for j, k in enumerate(steps):
+            if j:
+                hx.append(cm.mk_candles(stream[consumed : consumed + k]))
+                consumed += k
+            for key, candles in hx.get_candles().items():
+                tf = None if key == "default" else key
+                want = cm.ref_resample(stream[:consumed], gen.tf_seconds(tf)) if tf else list(stream[:consumed])
+                got = [cm.candle_tuple(c) for c in candles]
+                if not cm.tuples_equal(got, [tuple(w) for w in want], exact=True):
+                    return {"step": j, "timeframe": key, "clause": "hexital-timeframe", "observed": got[-4:], "expected": want[-4:],
+                            "observed_len": len(got), "expected_len": len(want)}
+    except Exception as e:
+        return {"clause": "raised", "observed": repr(e)[:200], "expected": "no exception"}
+    return None
+
+
+def case_hexital_tfs(rng, idx, params):
+    unit = rng.choice("STTH")
+    base = rng.choice([1, 2, 5, 10, 15])
+    mults = rng.sample([1, 2, 3, 4, 5, 6], rng.choice([2, 2, 3]))          # e.g. T10 + T15: neither nests in the other
+    if rng.random() < 0.5:
+        mults.sort()                                                         # the finer one registered first
+    tfs = [f"{unit}{base * m}" for m in mults]
+    n = rng.randint(2, params.get("size", 60))
+    step = max(1, gen.tf_seconds(f"{unit}{base}") // rng.choice([1, 2, 3, 5]))
+    stream, meta = gen.gen_stream(rng, n, step=step)
+    (init, chunks), shape = gen.gen_schedule(rng, n, shape=rng.choice(["batch", "few", "random", "one1", "empty1"]))
+    scn = {"check": "hexital-tfs", "tfs": tfs, "stream": stream, "init": init, "chunks": chunks}
+    bad = check_hexital_tfs(scn)
+    viol = None
+    if bad:
+        small = cm.shrink_stream(scn, lambda s: check_hexital_tfs(_fix_sched(s)) is not None, max_tries=60)
+        small = _fix_sched(small)
+        bad2 = check_hexital_tfs(small) or bad
+        viol = {"scenario": small, **bad2, "signature": f"C03:{bad2.get('clause')}"}
+    meta.update({"schedule": shape, "nesting": all(b % a == 0 for a, b in zip(sorted(mults), sorted(mults)[1:])), "tfs": len(tfs)})
+    return {"nontrivial": n >= 2, "key": hash(str(scn)), "violation": viol, "meta": meta,
+            "sample": {"tfs": tfs, "n": n, "init": init, "chunks": chunks[:8]} if idx < 2 else None}
+
+
+_replay_plain = replay
+
+
+def replay(witness):  # noqa: F811
+    scn = witness["scenario"]
+    if scn.get("check") == "hexital-tfs":
+        bad = check_hexital_tfs(scn)
+        return {"fails": bad is not None, "detail": bad}
+    return _replay_plain(witness)
